@@ -1,5 +1,6 @@
 import LexVerif.Proof.ParseNumberDebugRescan
 import LexVerif.Proof.GrammarIter
+import LexVerif.Proof.PrefixRepair
 /-!
 # Proof.ParseNumberDebugRescanFacts — what the first pass provides for the re-scan: start conditions, counts, stored slice
 
@@ -167,46 +168,95 @@ theorem prefixPhase_facts (cx : Ctx c) (b st : Bytes) (isP : Bool) (hb : Bytes.V
     (h : prefixPhase c b = .ok (isP, st)) :
     st.ic = b.ic ∧ st.fc = b.fc ∧ StartC c .integer st ∧ (c.basePrefix = 0 → Alt23 c .integer st) := by
   unfold prefixPhase at h
-  simp only [prefixRepair, Bool.false_eq_true, if_false] at h
   split at h
-  · next hcond =>
-    simp only [Bool.and_eq_true, bne_iff_ne, ne_eq, decide_eq_true_eq] at hcond
-    have hne : c.basePrefix ≠ 0 := by simpa using hcond.2
-    cases h1 : readIfValueCased c .integer 48 b with
-    | error e => simp [h1, bind, Except.bind] at h
-    | ok r1 =>
-      obtain ⟨zero, b1⟩ := r1
-      obtain ⟨f1, f2, f3, _, f5⟩ := readIfValueCased_facts cx .integer 48 b b1 zero hb h1
-      simp only [h1, bind, Except.bind] at h
-      cases zero with
-      | false =>
-        simp only [Bool.false_eq_true, if_false, pure, Except.pure, Except.ok.injEq, Prod.mk.injEq] at h
-        obtain ⟨_, rfl⟩ := h
-        exact ⟨f1, f2, Or.inr (f5 rfl), fun h0 => absurd h0 hne⟩
-      | true =>
-        simp only [if_true] at h
-        cases h2 : readIfValue c .integer c.basePrefix c.caseSensitiveBasePrefix b1 with
-        | error e => simp [h2] at h
-        | ok r2 =>
-          obtain ⟨hit, b2⟩ := r2
-          obtain ⟨g1, g2, g3, g4, g5⟩ := readIfValue_facts cx .integer _ _ b1 b2 hit f3 h2
-          simp only [h2] at h
-          split at h
-          · cases h
-          · simp only [pure, Except.pure, Except.ok.injEq, Prod.mk.injEq] at h
-            obtain ⟨_, rfl⟩ := h
-            refine ⟨g1.trans f1, g2.trans f2, ?_, fun h0 => absurd h0 hne⟩
+  · -- repaired `parse_number`
+    rw [LexVerif.Proof.PrefixRepair.prefixPhaseRepaired_eq] at h
+    split at h
+    · next hcond =>
+      simp only [Bool.and_eq_true, bne_iff_ne, ne_eq, decide_eq_true_eq] at hcond
+      have hne : c.basePrefix ≠ 0 := by simpa using hcond.2
+      cases h1 : readIfValueCased c .integer 48 b with
+      | error e => simp [h1] at h
+      | ok r1 =>
+        obtain ⟨zero, b1⟩ := r1
+        obtain ⟨f1, f2, f3, _, f5⟩ := readIfValueCased_facts cx .integer 48 b b1 zero hb h1
+        simp only [h1] at h
+        cases zero with
+        | false =>
+          simp only [Except.ok.injEq, Prod.mk.injEq] at h
+          obtain ⟨_, rfl⟩ := h
+          exact ⟨f1, f2, Or.inr (f5 rfl), fun h0 => absurd h0 hne⟩
+        | true =>
+          simp only at h
+          cases h2 : readIfValue c .integer c.basePrefix c.caseSensitiveBasePrefix b1 with
+          | error e => simp [h2] at h
+          | ok r2 =>
+            obtain ⟨hit, b2⟩ := r2
+            obtain ⟨g1, g2, g3, g4, g5⟩ := readIfValue_facts cx .integer _ _ b1 b2 hit f3 h2
+            simp only [h2] at h
             cases hit with
             | true =>
-              obtain ⟨y, hy, hm⟩ := g4 rfl
-              left
-              intro x hx
-              rw [hy] at hx; cases hx
-              exact hpre hne y hm
-            | false => exact Or.inr (g5 rfl)
-  · simp only [pure, Except.pure, Except.ok.injEq, Prod.mk.injEq] at h
-    obtain ⟨_, rfl⟩ := h
-    exact ⟨rfl, rfl, Or.inr hpost, fun _ => hpost⟩
+              simp only at h
+              split at h
+              · cases h
+              · simp only [Except.ok.injEq, Prod.mk.injEq] at h
+                obtain ⟨_, rfl⟩ := h
+                refine ⟨g1.trans f1, g2.trans f2, ?_, fun h0 => absurd h0 hne⟩
+                obtain ⟨y, hy, hm⟩ := g4 rfl
+                left
+                intro x hx
+                rw [hy] at hx; cases hx
+                exact hpre hne y hm
+            | false =>
+              simp only at h
+              split at h
+              · simp only [Except.ok.injEq, Prod.mk.injEq] at h
+                obtain ⟨_, rfl⟩ := h
+                exact ⟨rfl, rfl, Or.inr hpost, fun h0 => absurd h0 hne⟩
+              · split at h <;> cases h
+    · simp only [Except.ok.injEq, Prod.mk.injEq] at h
+      obtain ⟨_, rfl⟩ := h
+      exact ⟨rfl, rfl, Or.inr hpost, fun _ => hpost⟩
+  · unfold prefixPhaseCurrent at h
+    split at h
+    · next hcond =>
+      simp only [Bool.and_eq_true, bne_iff_ne, ne_eq, decide_eq_true_eq] at hcond
+      have hne : c.basePrefix ≠ 0 := by simpa using hcond.2
+      cases h1 : readIfValueCased c .integer 48 b with
+      | error e => simp [h1, bind, Except.bind] at h
+      | ok r1 =>
+        obtain ⟨zero, b1⟩ := r1
+        obtain ⟨f1, f2, f3, _, f5⟩ := readIfValueCased_facts cx .integer 48 b b1 zero hb h1
+        simp only [h1, bind, Except.bind] at h
+        cases zero with
+        | false =>
+          simp only [Bool.false_eq_true, if_false, pure, Except.pure, Except.ok.injEq, Prod.mk.injEq] at h
+          obtain ⟨_, rfl⟩ := h
+          exact ⟨f1, f2, Or.inr (f5 rfl), fun h0 => absurd h0 hne⟩
+        | true =>
+          simp only [if_true] at h
+          cases h2 : readIfValue c .integer c.basePrefix c.caseSensitiveBasePrefix b1 with
+          | error e => simp [h2] at h
+          | ok r2 =>
+            obtain ⟨hit, b2⟩ := r2
+            obtain ⟨g1, g2, g3, g4, g5⟩ := readIfValue_facts cx .integer _ _ b1 b2 hit f3 h2
+            simp only [h2] at h
+            split at h
+            · cases h
+            · simp only [pure, Except.pure, Except.ok.injEq, Prod.mk.injEq] at h
+              obtain ⟨_, rfl⟩ := h
+              refine ⟨g1.trans f1, g2.trans f2, ?_, fun h0 => absurd h0 hne⟩
+              cases hit with
+              | true =>
+                obtain ⟨y, hy, hm⟩ := g4 rfl
+                left
+                intro x hx
+                rw [hy] at hx; cases hx
+                exact hpre hne y hm
+              | false => exact Or.inr (g5 rfl)
+    · simp only [pure, Except.pure, Except.ok.injEq, Prod.mk.injEq] at h
+      obtain ⟨_, rfl⟩ := h
+      exact ⟨rfl, rfl, Or.inr hpost, fun _ => hpost⟩
 
 /-! ## `fraction_count` through the integer digits -/
 
